@@ -226,6 +226,47 @@ done:
 		i++
 	}
 	r.Completed("all sequences of length <= 2 from every reachable state")
+	// A match that has been built belongs to the calls made before it: from every reachable state,
+	// build the match, keep it, apply each of the 16 operations to the same builder, and look at the
+	// kept match again (it must not have moved) and at a second match built afterwards (building in
+	// between must not have disturbed the builder).
+	var kept int64
+	for _, nd := range seen {
+		for oi, o := range ctOps {
+			s, m := ctBuild(nd.path)
+			path := append(append([]int{}, nd.path...), oi)
+			cl, what := func() (cl, what string) {
+				defer func() {
+					if p := recover(); p != nil {
+						cl, what = "panic", fmt.Sprintf("panicked: %v", p)
+					}
+				}()
+				f := of.NewCTStateMatchField(s)
+				if f == nil {
+					return "", ""
+				}
+				before, _ := f.MarshalBinary()
+				before = append([]byte{}, before...)
+				o.f(s)
+				after, _ := f.MarshalBinary()
+				if !bytes.Equal(before, after) {
+					return "built-match-moved", fmt.Sprintf("a match built before the last call encoded to % x when it was built and to % x after the call", before, after)
+				}
+				return "", ""
+			}()
+			kept++
+			transitions++
+			if cl != "" {
+				report(cl, what, path)
+				continue
+			}
+			if cl, what := ctOracle(s, m.apply(o)); cl != "" {
+				report("after-build:"+cl, what+" (a match had been built from the builder before the last call)", path)
+			}
+		}
+	}
+	r.Set("built_matches_reinspected_after_a_further_call", kept)
+	r.Completed("every reachable state x 16 operations with a match built and kept before the operation")
 	r.Set("transitions", transitions)
 	r.Set("traces_validated_against_impl", seqs+int64(len(seen)))
 	r.Set("evaluations", seqs+transitions)
